@@ -1305,6 +1305,7 @@ func runC16(c *Ctx) {
 		"C16.d draw loops: one row per emitted line (row += 1 once per line), col restarts at 0 and advances by the width of each written cell, WriteCell(col, row, cell-of-this-line)",
 		"C16.e every non-whitespace addition X to the token is guarded by w + width(X) <= s.width (a grapheme may exceed only on an empty line); w advanced by width(X) after every addition; widths measured over exactly X",
 		"C16.f plain scanner: s.state is the returned state iff s.rest = rest, -1 for any other new rest, untouched when nothing is consumed; constructor starts at -1",
+		"C16.g progress: in the long-word split a grapheme is deferred to the next line only if the current line already has content (necessary for termination with a grapheme wider than the line)",
 	}
 	c.NotDec = []string{
 		"termination and the position of break opportunities (values returned by uniseg at run time)",
@@ -1317,6 +1318,8 @@ func runC16(c *Ctx) {
 	c.expect("C16.d", 30)
 	c.expect("C16.e", 20)
 	c.expect("C16.f", 6)
+	c.expect("C16.g", 2)
+	c16Progress(c)
 
 	plain := c16Load(c, "vxfw/text")
 	rich := c16Load(c, "vxfw/richtext")
